@@ -73,7 +73,7 @@ theorem C14_drop_trivia (input : List Nat) :
 /-! Non-vacuity: concrete inputs with every trivia kind, lexed by kernel evaluation. -/
 example : lexAll (bytesOf "x/*c*/ +1") true =
     .ok [⟨.ident (bytesOf "x"), 0, 1⟩, ⟨.comment, 1, 6⟩, ⟨.whitespace, 6, 7⟩,
-         ⟨.simple .Plus, 7, 8⟩, ⟨.number [49] 0, 8, 9⟩, ⟨.eof, 9, 9⟩] := by decide
+         ⟨.simple .Plus, 7, 8⟩, ⟨.number [49] 0, 8, 9⟩, ⟨.eof, 9, 9⟩] := by decide +kernel
 example : lexAll (bytesOf "1 @") true = .err ⟨.InvalidChar 64, 2, 3⟩ := by decide
 
 /-! ## UTF-8 decoding -/
@@ -182,7 +182,8 @@ example : ∃ segs, SegsWF 39 segs ∧ SegsValue segs [97, 0xE9, 0x1F600] ∧
       exact Lossy.step (r := some 97) (by simp) this Lossy.nil
     exact SegsValue.raw h1 (SegsValue.esc (SegsValue.esc SegsValue.nil))
 example : lexAll (bytesOf "'a\\u00e9\\ud83d\\ude00' @\"x\"\"\"") false =
-    .ok [⟨.string [97, 0xE9, 0x1F600], 0, 21⟩, ⟨.string [120, 34], 22, 28⟩, ⟨.eof, 28, 28⟩] := by decide
+    .ok [⟨.string [97, 0xE9, 0x1F600], 0, 21⟩, ⟨.string [120, 34], 22, 28⟩, ⟨.eof, 28, 28⟩] := by
+  decide +kernel
 
 /-! ## Numbers -/
 
@@ -252,7 +253,7 @@ def C14_textblock_strip_full : Prop :=
 
 /-! Non-vacuity: `|||-`, an empty first line, tab prefix, an empty line in the middle. -/
 example : nextToken ⟨0, bytesOf "|||- \n\n\ta\n\n\t b\n |||;"⟩ =
-    .tok (.textBlock (bytesOf "\na\n\n b")) ⟨19, bytesOf ";"⟩ := by decide
+    .tok (.textBlock (bytesOf "\na\n\n b")) ⟨19, bytesOf ";"⟩ := by decide +kernel
 example : bytesOf "|||- \n\n\ta\n\n\t b\n |||;" =
     124 :: 124 :: 124 :: tbSource true [32] 1 [9] [97] [.blank, .text [32, 98]] [32] [59] := by decide
 
